@@ -697,6 +697,9 @@ func (e *Enforcer) enforce(matcher string, explains *[]string, rvals ...interfac
 	if e.acceptJsonRequest {
 		// try to parse all request values from json to map[string]interface{}
 		// skip if there is an error
+		// the parsed values go into a copy: rvals is the caller's slice (BatchEnforce passes the
+		// caller's own request slices), which concurrent callers may share
+		rvals = append([]interface{}(nil), rvals...)
 		for i, rval := range rvals {
 			switch rval := rval.(type) {
 			case string:
